@@ -48,20 +48,29 @@ def main():
     if "--no-tests" not in a:
         r = sh(f"cd {wt} && {env} /venv/bin/python -m pytest -q -p no:cacheprovider --timeout=900 tests 2>&1 | tail -3")
         res["tests_with_change"] = r.stdout.strip()[-300:]
-    # our checks against /repo with the patch applied
-    assert sh("git -C /repo status --porcelain -- dissect").stdout.strip() == "", "/repo has uncommitted changes"
-    r0 = sh(f"git -C /repo apply {dest}/patch.diff")
-    assert r0.returncode == 0, r0.stderr
+    # our checks against /repo with the patch applied (or, with --via-worktree, against the agent's patched worktree
+    # through VERIF_REPO - used while a background run is reading /repo)
+    via_wt = "--via-worktree" in a
     checks = {}
-    try:
+    if via_wt:
         for p in props:
             t0 = time.time()
-            r = sh(f"cd {ROOT} && ./check {p} --tier {tier}")
+            r = sh(f"cd {ROOT} && VERIF_REPO={wt} ./check {p} --tier {tier}")
             lines = [l for l in r.stdout.splitlines() if l.startswith("VIOLATION") or l.strip().startswith("violation in")]
-            checks[p] = dict(exit=r.returncode, wall=round(time.time() - t0, 1), lines=[l[:400] for l in lines[:4]])
-    finally:
-        sh("git -C /repo checkout -- .")
-    assert sh("git -C /repo status --porcelain -- dissect").stdout.strip() == ""
+            checks[p] = dict(exit=r.returncode, wall=round(time.time() - t0, 1), lines=[l[:400] for l in lines[:4]], via="VERIF_REPO=worktree")
+    else:
+        assert sh("git -C /repo status --porcelain -- dissect").stdout.strip() == "", "/repo has uncommitted changes"
+        r0 = sh(f"git -C /repo apply {dest}/patch.diff")
+        assert r0.returncode == 0, r0.stderr
+        try:
+            for p in props:
+                t0 = time.time()
+                r = sh(f"cd {ROOT} && ./check {p} --tier {tier}")
+                lines = [l for l in r.stdout.splitlines() if l.startswith("VIOLATION") or l.strip().startswith("violation in")]
+                checks[p] = dict(exit=r.returncode, wall=round(time.time() - t0, 1), lines=[l[:400] for l in lines[:4]])
+        finally:
+            sh("git -C /repo checkout -- .")
+        assert sh("git -C /repo status --porcelain -- dissect").stdout.strip() == ""
     meta["confirmed_by_verif"] = res
     meta["our_checks"] = checks
     meta["breaks_property"] = pid
